@@ -240,6 +240,10 @@ def gen_history(rng, n_ops):
         k = rng.choice(kinds)
         pool = INAMES if k == "add_int" or (k in ("set", "rm_ws", "rm_parent") and rng.random() < 0.3) else NAMES
         ops.append((k, rng.randrange(4), rng.choice(pool), rng.randrange(1 << 30)))
+    if rng.random() < 0.15:
+        ops.append(("copy_twice", 0, "A", 0))
+        ops.append(("reopen",))
+        return ops
     if rng.random() < 0.25:
         # renaming is a recorded finding whose after-effects (stale 'Property:<old>' keys) would
         # contaminate later operations: it is exercised as the last mutation of a history
@@ -620,6 +624,7 @@ def run_history(ctx: Ctx, tracer: Tracer, hist_id: int, version: float, ops, pat
                         ws2 = Workspace.create(path2)
                         g.copy(parent=ws2)
                         compare_group(ws2, ref2, "copy_group:fresh-copy")
+
                         n2 = depth_len[h2name]
                         v2 = rng_vals.integers(-800, 800, size=n2) / 8.0
                         ws2.get_entity(h2name)[0].get_data(d2name)[0].values = v2
@@ -655,6 +660,27 @@ def run_history(ctx: Ctx, tracer: Tracer, hist_id: int, version: float, ops, pat
                         if os.path.exists(path2):
                             os.remove(path2)
                     ctx.count("op:copy_group")
+                elif kind == "copy_twice":
+                    # the group is copied twice into one other workspace: the second time the identifiers of the group and of
+                    # its holes are taken there
+                    path2 = str(path) + ".twice.geoh5"
+                    tracer.muted = True
+                    try:
+                        ws2 = Workspace.create(path2)
+                        g.copy(parent=ws2)
+                        try:
+                            g.copy(parent=ws2)
+                        except Exception as e:  # noqa: BLE001
+                            failures.append((f"a second copy of the group into the same other workspace raised {type(e).__name__}: "
+                                             f"{str(e)[:80]}", f"C04:copy_group:second-copy-raises:{type(e).__name__}"))
+                        ws2.close()
+                    finally:
+                        tracer.muted = False
+                        if os.path.exists(path2):
+                            os.remove(path2)
+                    ctx.count("op:copy_twice")
+                    renamed = True          # nothing after this operation is compared (the group may be left half copied)
+                    return
                 elif kind == "rename":
                     if dname not in ref[hname]:
                         return
